@@ -497,6 +497,46 @@ def main():
                 if outs[0][0] != outs[1][0] or outs[0][1] != outs[1][1]:
                     v.deviation("buildconfig:%s:different-output" % name, {"argv": argv, "default": (outs[0][0], sorted(outs[0][1])),
                                                                            "config": (outs[1][0], sorted(outs[1][1]), outs[1][2])})
+        # D2. the translator built the project's own way, in every cmake build type (optimisation levels, NDEBUG, whatever flags the
+        #     project attaches to them): the same output, byte for byte, as the plain build the checks use - on modules with constants
+        #     of every class (subnormals, NaNs, extremes) in bodies, global initialisers and segment offsets
+        src07 = open(os.path.join(os.path.dirname(os.path.abspath(__file__)), "c07.py")).read().replace("main_wrap(main)", "").replace("if __name__ == \"__main__\":", "if False:")
+        ns07 = {"__file__": os.path.join(os.path.dirname(os.path.abspath(__file__)), "c07.py"), "__name__": "borrowed_c07"}
+        exec(compile(src07, "c07", "exec"), ns07)
+        crng = random.Random(SEED + 909)
+        cs = [("f32", x) for x in ns07["float_pool"](crng, 8, 23, 4, False)] + [("f64", x) for x in ns07["float_pool"](crng, 11, 52, 4, False)] + \
+             [("i32", x) for x in ns07["int_pool"](crng, 32, 4)] + [("i64", x) for x in ns07["int_pool"](crng, 64, 4)]
+        cmods = [it["module"] for it in ns07["build_items"](cs[::2])][:6] + [make_module(rng, 7)]
+        cdir = os.path.join(wd, "cmk")
+        os.makedirs(cdir)
+        for k_, m_ in enumerate(cmods):
+            open(os.path.join(cdir, "c%d.wasm" % k_), "wb").write(wasm_encode.encode(machine.enc_module(machine.norm_module(m_))))
+
+        def translate_all(exe, tag):
+            outs = {}
+            for k_ in range(len(cmods)):
+                for argv in ([], ["-p"], ["-f", "2"]):
+                    dd = os.path.join(cdir, "%s-%d-%s" % (tag, k_, "".join(argv) or "x"))
+                    os.makedirs(dd)
+                    rc_, so_, se_ = run([exe, "-t", "1"] + argv + ["../c%d.wasm" % k_, "out.c"], cwd=dd, timeout=120)
+                    outs[(k_, tuple(argv))] = (rc_, {f_: open(os.path.join(dd, f_), "rb").read() for f_ in sorted(os.listdir(dd))})
+                    shutil.rmtree(dd, ignore_errors=True)
+            return outs
+        ref_out = translate_all(w2c2, "ref")
+
+        def cm_one(bt):
+            try:
+                return bt, common.build_w2c2_cmake(os.path.join(wd, "cmake-" + (bt or "default")), bt), None
+            except common.MachineryError as e_:
+                return bt, None, str(e_)
+        for bt, exe_c, err_c in pmap(cm_one, [None, "Release", "MinSizeRel", "RelWithDebInfo", "Debug"], jobs=5):
+            if exe_c is None:
+                v.deviation("buildconfig:cmake-%s:does-not-build" % (bt or "default"), {"error": err_c[-600:]})
+                continue
+            got = translate_all(exe_c, "cm" + (bt or "default"))
+            diff = [(k_, list(a_)) for (k_, a_), val in sorted(ref_out.items()) if got[(k_, a_)] != val]
+            if diff:
+                v.deviation("buildconfig:cmake-%s:different-output" % (bt or "default"), {"modules_and_options": diff[:6]})
         # E. many writer threads at once, on a module in which every function formats something of every kind (constants of all
         #    four types, br_table label vectors, prefixed instructions with their many flavours, memory offsets, calls, globals):
         #    whatever a worker needs while it writes a function is its own.  The files of runs with 3..16 threads are compared
